@@ -2,30 +2,97 @@ import PytezosModel.Generated.C22
 import PytezosModel.Michelson.BigMap
 /-! Mirror of a REPL session (`Interpreter.execute`, src/pytezos/michelson/repl.py) over the cell alphabet of C22:
 storage / parameter / code declarations, PUSH, SOME, NONE, UNIT, EMPTY_BIG_MAP, UPDATE, GET, MEM, GET_AND_UPDATE, DUP,
-DROP, SWAP, PAIR, CAR, CDR, NIL operation, ADD, FAILWITH, BEGIN, COMMIT, RUN, DROP_ALL, BIG_MAP_DIFF
-(src/pytezos/michelson/instructions/{jupyter,struct,stack}.py, sections/*.py, program.py `begin`/`end`).
+DROP, SWAP, PAIR, CAR, CDR, NIL operation, ADD, FAILWITH, DROP n, DIG n, DUG n, DUP n, DIP { … }, DIP n { … } (bodies
+nest), AMOUNT, BALANCE, NOW, SENDER, SOURCE, PATCH <field> [value], BEGIN, COMMIT, RUN, DROP_ALL, BIG_MAP_DIFF
+(src/pytezos/michelson/instructions/{jupyter,struct,stack,control,tezos}.py, sections/*.py, program.py `begin`/`end`).
+
+The stack is pytezos' `MichelsonStack` (src/pytezos/michelson/stack.py): `items` plus the counter `protected`; `protect`,
+`restore`, `push`, `peek`, `pop`, `clear` are transcribed literally (`Stk`), every instruction goes through them, and
+`execute_dip` is `protect; body; restore` with NO try/finally: when an instruction raises inside a DIP body (or between
+the `protect` and the `restore` of DIG / DUP n) the live stack object keeps `protected > 0`.  What is left of the
+machine stack when a cell raises is therefore part of the result (`Fail.prot`); its items are not, because both restore
+shapes found in the source overwrite or discard them.
 
 What the property is about is *aliasing*: a `BigMapType` on the stack holds a reference to an `ExecutionContext`
 object, `Interpreter.execute` deep-copies stack and context before a cell and swaps the copies in when the cell fails.
 So context objects live in an explicit heap (`List Ctx`, a reference is an index), a stacked big map carries a
 reference, and every instruction reaches a context through the reference the code uses: the interpreter's own
-(`cur`) for declarations, EMPTY_BIG_MAP, BEGIN, RUN; the big map's for GET / MEM / UPDATE (`get_big_map_value`) and
-for `aggregate_lazy_diff` (`get_big_map_diff`: id allocation) in COMMIT, RUN and BIG_MAP_DIFF.
+(`cur`) for declarations, EMPTY_BIG_MAP, BEGIN, RUN, PATCH, AMOUNT …; the big map's for GET / MEM / UPDATE
+(`get_big_map_value`) and for `aggregate_lazy_diff` (`get_big_map_diff`: id allocation) in COMMIT, RUN and BIG_MAP_DIFF.
 
 The instruction semantics is written once, generic in the reference type `ρ` and a store `S` of contexts
 (`Store`); `heapStore` is the mirror, `unitStore` (one context, trivial references) is the aliasing-free reading
 used to state what a session *without* the failing cells does.  How the backup is taken (`Generated.C22.snapshot`,
-`deepcopyContext`) and what `update` iterates over (`Generated.C15`) are read from the source.
+`deepcopyContext`), how it is put back (`Generated.C22.restore`: the stack object is replaced, or only its `items`) and
+what `update` iterates over (`Generated.C15`) are read from the source.
 
-Fragment: keys and values of big maps are naturals (`big_map nat nat`), `stack.protected` is always 0 (no DIP).
+Fragment: keys and values of big maps are naturals (`big_map nat nat`); strings (PATCH SENDER / SOURCE / CHAIN_ID) are
+tokens: the empty string, a well-formed address of the driver's table, any other non-empty string (`Str`); `DUP n` is
+`dupn (n - 1)` (`DUP 0` is not in the alphabet); no shell, no key, `balance_update = 0` (nothing in the alphabet spends).
 `Err.outOfModel` marks inputs on which the real code does something the value domain here cannot express (UPDATE
 with a non-nat payload is accepted unchecked by pytezos); the correspondence never generates them. -/
 
 namespace Impl.Session
 open Impl.BigMap
 
+/-! ### `MichelsonStack` -/
+
+/-- `MichelsonStack`: `items` (top first) and the number of protected leading items -/
+structure Stk (α : Type) where
+  items : List α
+  prot : Nat
+  deriving DecidableEq, Repr
+
+namespace Stk
+variable {α β : Type}
+
+/-- `MichelsonStack()` -/
+def empty : Stk α := ⟨[], 0⟩
+
+/-- `protect(count)`: `if len(self.items) < count: raise`; `self.protected += count` -/
+def protect (s : Stk α) (count : Nat) : Option (Stk α) :=
+  if s.items.length < count then none else some { s with prot := s.prot + count }
+
+/-- `restore(count)`: `if self.protected < count: raise`; `self.protected -= count` -/
+def restore (s : Stk α) (count : Nat) : Option (Stk α) :=
+  if s.prot < count then none else some { s with prot := s.prot - count }
+
+/-- `push(item)`: `self.items.insert(self.protected, item)` (`list.insert` clamps the index) -/
+def push (s : Stk α) (v : α) : Stk α :=
+  { s with items := s.items.take s.prot ++ v :: s.items.drop s.prot }
+
+/-- `peek()`: `if not self.items: raise`; `self.items[self.protected]` (IndexError beyond the end) -/
+def peek (s : Stk α) : Option α :=
+  if s.items.isEmpty then none else s.items[s.prot]?
+
+/-- `pop(count)`: `if len(self.items) - self.protected < count: raise`; `[self.items.pop(self.protected) for _ in range(count)]` -/
+def pop (s : Stk α) (count : Nat) : Option (List α × Stk α) :=
+  if s.items.length < s.prot + count then none
+  else some ((s.items.drop s.prot).take count, { s with items := s.items.take s.prot ++ (s.items.drop s.prot).drop count })
+
+/-- `clear()` -/
+def clear (_ : Stk α) : Stk α := ⟨[], 0⟩
+
+def map (f : α → β) (s : Stk α) : Stk β := ⟨s.items.map f, s.prot⟩
+
+/-- what an instruction with `k` operands does first: `pop1()` / `pop2()` / `pop3()` — nothing when it has none -/
+def popArgs (s : Stk α) (k : Nat) : Option (List α × Stk α) :=
+  if k = 0 then some ([], s) else s.pop k
+
+/-- push a segment given top first (the last element is pushed first) -/
+def pushAll (s : Stk α) (vs : List α) : Stk α := vs.foldr (fun v acc => acc.push v) s
+
+end Stk
+
+/-! ### values, instructions, contexts -/
+
 inductive Ty
-  | unit | nat | bool | option (t : Ty) | pair (a b : Ty) | bigmap | listOp
+  | unit | nat | bool | option (t : Ty) | pair (a b : Ty) | bigmap | listOp | mutez | timestamp | address
+  deriving DecidableEq, Repr
+
+/-- an address on the stack: the dummy key hash, or entry `i` of the driver's table of well-formed addresses -/
+inductive Addr
+  | dummy | known (i : Nat)
   deriving DecidableEq, Repr
 
 /-- runtime values; `ρ` = type of context references held by big maps -/
@@ -38,6 +105,9 @@ inductive Val (ρ : Type)
   | pair (a b : Val ρ)
   | nilOp
   | bigmap (b : BM Nat Nat) (ctx : ρ)
+  | mutez (n : Nat)
+  | timestamp (z : Int)
+  | address (a : Addr)
   deriving DecidableEq, Repr
 
 def Val.map {ρ ρ' : Type} (f : ρ → ρ') : Val ρ → Val ρ'
@@ -49,6 +119,9 @@ def Val.map {ρ ρ' : Type} (f : ρ → ρ') : Val ρ → Val ρ'
   | .pair a b => .pair (a.map f) (b.map f)
   | .nilOp => .nilOp
   | .bigmap b r => .bigmap b (f r)
+  | .mutez n => .mutez n
+  | .timestamp z => .timestamp z
+  | .address a => .address a
 
 /-- the context references held inside a value, left to right -/
 def Val.refs {ρ : Type} : Val ρ → List ρ
@@ -66,12 +139,60 @@ def Val.typeOf {ρ : Type} : Val ρ → Ty
   | .pair a b => .pair a.typeOf b.typeOf
   | .nilOp => .listOp
   | .bigmap _ _ => .bigmap
+  | .mutez _ => .mutez
+  | .timestamp _ => .timestamp
+  | .address _ => .address
 
-/-- instructions that may appear in a `code { … }` body and in cells -/
+/-- instructions that may appear in a `code { … }` body and in cells (DIP is `Prog.dip`); `dupn d` is `DUP (d + 1)` -/
 inductive Basic
   | push (n : Nat) | some | none_ (t : Ty) | unit | emptyBigMap | update | get | mem | getAndUpdate
   | dup | drop | swap | pair | car | cdr | nilOp | add | failwith
+  | dropn (n : Nat) | dig (n : Nat) | dug (n : Nat) | dupn (d : Nat)
+  | amount | balance | now | sender | source
   deriving DecidableEq, Repr
+
+/-- a program over leaf instructions `α`: a leaf, `DIP { body }`, `DIP n { body }` -/
+inductive Prog (α : Type)
+  | op (a : α)
+  | dip (body : List (Prog α))
+  | dipn (n : Nat) (body : List (Prog α))
+  deriving Repr
+
+section decEq
+variable {α : Type} [DecidableEq α]
+mutual
+def Prog.decEq : (a b : Prog α) → Decidable (a = b)
+  | .op a, .op b => if h : a = b then isTrue (by rw [h]) else isFalse (by intro h'; cases h'; exact h rfl)
+  | .dip x, .dip y =>
+    match Prog.decEqList x y with
+    | isTrue h => isTrue (by rw [h])
+    | isFalse h => isFalse (by intro h'; cases h'; exact h rfl)
+  | .dipn n x, .dipn m y =>
+    if hn : n = m then
+      match Prog.decEqList x y with
+      | isTrue h => isTrue (by rw [hn, h])
+      | isFalse h => isFalse (by intro h'; cases h'; exact h rfl)
+    else isFalse (by intro h'; cases h'; exact hn rfl)
+  | .op _, .dip _ => isFalse (by intro h; cases h)
+  | .op _, .dipn _ _ => isFalse (by intro h; cases h)
+  | .dip _, .op _ => isFalse (by intro h; cases h)
+  | .dip _, .dipn _ _ => isFalse (by intro h; cases h)
+  | .dipn _ _, .op _ => isFalse (by intro h; cases h)
+  | .dipn _ _, .dip _ => isFalse (by intro h; cases h)
+def Prog.decEqList : (a b : List (Prog α)) → Decidable (a = b)
+  | [], [] => isTrue rfl
+  | [], _ :: _ => isFalse (by intro h; cases h)
+  | _ :: _, [] => isFalse (by intro h; cases h)
+  | x :: xs, y :: ys =>
+    match Prog.decEq x y with
+    | isFalse h => isFalse (by intro h'; cases h'; exact h rfl)
+    | isTrue h =>
+      match Prog.decEqList xs ys with
+      | isTrue h2 => isTrue (by rw [h, h2])
+      | isFalse h2 => isFalse (by intro h'; cases h'; exact h2 rfl)
+end
+instance : DecidableEq (Prog α) := Prog.decEq
+end decEq
 
 /-- literals of BEGIN / RUN -/
 inductive Lit
@@ -81,16 +202,34 @@ inductive Lit
   | pair (a b : Lit)
   deriving DecidableEq, Repr
 
+/-- a string literal, as far as the alphabet tells strings apart: `""`, entry `i` of the driver's table of well-formed
+addresses, any other non-empty string (never an address, never an RFC 3339 timestamp) -/
+inductive Str
+  | empty | addr (i : Nat) | other (i : Nat)
+  deriving DecidableEq, Repr
+
+/-- `PatchInstruction.allowed_primitives` -/
+inductive Field
+  | amount | balance | chainId | sender | source | now
+  deriving DecidableEq, Repr
+
+/-- the literal of `PATCH <field> <literal>` -/
+inductive PatchVal
+  | int (n : Int) | str (s : Str)
+  deriving DecidableEq, Repr
+
+/-- the leaf instructions of a cell -/
 inductive Instr
   | basic (b : Basic)
   | declStorage (t : Ty)
   | declParam (t : Ty)
-  | declCode (c : List Basic)
+  | declCode (c : List (Prog Basic))
   | begin_ (p s : Lit)
   | commit
   | run (p s : Lit)
   | dropAll
   | bigMapDiff
+  | patch (f : Field) (v : Option PatchVal)
   | parseError        -- the cell text does not parse: `MichelsonParserError` before anything runs
   deriving DecidableEq, Repr
 
@@ -98,14 +237,27 @@ inductive Instr
 structure Ctx where
   storageTy : Option Ty
   paramTy : Option Ty
-  code : Option (List Basic)
+  code : Option (List (Prog Basic))
   big : BigMap.Ctx
+  amount : Option Int
+  balance : Option Int
+  now : Option Int
+  sender : Option Str
+  source : Option Str
+  chainId : Option Str
   deriving DecidableEq, Repr
 
-def Ctx.init : Ctx := ⟨none, none, none, BigMap.Ctx.empty⟩
+def Ctx.init : Ctx := ⟨none, none, none, BigMap.Ctx.empty, none, none, none, none, none, none⟩
 
 inductive Err
   | underflow | illTyped | failwith | noShell | notInitialised | rejected | parse | dangling | unrecognised | outOfModel
+  deriving DecidableEq, Repr
+
+/-- what is known of a raising instruction: the error, and the `protected` counter of the live stack object at that
+moment (its items are overwritten or discarded by the rollback) -/
+structure Fail where
+  err : Err
+  prot : Nat
   deriving DecidableEq, Repr
 
 abbrev Entry := DiffEntry Nat Nat Unit
@@ -129,22 +281,32 @@ def heapStore : Store Nat (List Ctx) := ⟨fun h r => h[r]?, fun h r c => h.set 
 /-- a single context, no aliasing possible -/
 def unitStore : Store Unit Ctx := ⟨fun c _ => some c, fun _ _ c => c⟩
 
-abbrev Res (S α : Type) := Except Err α × S
+abbrev Res (S α : Type) := Except Fail α × S
 
 section generic
 variable {ρ S : Type}
 
-/-! ### instructions that only touch the stack -/
+/-! ### instructions that pop, compute, push -/
 
-/-- `none`: not a stack-only instruction -/
+/-- how many items the instruction pops (`pop1` / `pop2` / `pop3`) before it looks at them -/
+def arity : Basic → Nat
+  | .some | .drop | .car | .cdr | .failwith => 1
+  | .swap | .pair | .add | .get | .mem => 2
+  | .update | .getAndUpdate => 3
+  | _ => 0
+
+/-- `MutezType.from_value`: `assert value >= 0`, at most 63 bits -/
+def mutezOf (v : Int) : Except Err (Val ρ) :=
+  if v < 0 then .error .rejected else if 2 ^ 63 ≤ v then .error .rejected else .ok (.mutez v.toNat)
+
+/-- the popped items (top first, followed by whatever the caller leaves below) to what is pushed back;
+`none`: not an instruction of this kind -/
 def stackOnly : Basic → List (Val ρ) → Option (Except Err (List (Val ρ)))
   | .push n, st => some (.ok (.nat n :: st))
   | .some, v :: st => some (.ok (.some v :: st))
   | .some, [] => some (.error .underflow)
   | .none_ t, st => some (.ok (.none t :: st))
   | .unit, st => some (.ok (.unit :: st))
-  | .dup, v :: st => some (.ok (v :: v :: st))          -- `duplicate()` keeps `context`
-  | .dup, [] => some (.error .underflow)
   | .drop, _ :: st => some (.ok st)
   | .drop, [] => some (.error .underflow)
   | .swap, a :: b :: st => some (.ok (b :: a :: st))
@@ -159,6 +321,7 @@ def stackOnly : Basic → List (Val ρ) → Option (Except Err (List (Val ρ)))
   | .cdr, [] => some (.error .underflow)
   | .nilOp, st => some (.ok (.nilOp :: st))
   | .add, .nat a :: .nat b :: st => some (.ok (.nat (a + b) :: st))
+  | .add, .mutez a :: .mutez b :: st => some ((mutezOf ((a + b : Nat) : Int)).map fun v => v :: st)
   | .add, _ :: _ :: _ => some (.error .illTyped)
   | .add, _ => some (.error .underflow)
   | .failwith, _ :: _ => some (.error .failwith)
@@ -201,7 +364,7 @@ def bmUpdate (σ : Store ρ S) (s : S) (b : BM Nat Nat) (r : ρ) (k : Nat) (v : 
     | .error e => .error e
     | .ok prev => .ok (prev, updateWith sh Nat.blt b k v prev)
 
-/-- GET, MEM, UPDATE, GET_AND_UPDATE (only on `big_map nat nat` and nat keys here) -/
+/-- GET, MEM, UPDATE, GET_AND_UPDATE (only on `big_map nat nat` and nat keys here): popped items to pushed items -/
 def stepBigMap (σ : Store ρ S) (s : S) : Basic → List (Val ρ) → Except Err (List (Val ρ))
   | .get, .nat k :: .bigmap b r :: st => (bmGet σ s b r k).map fun v => optVal v :: st
   | .get, _ :: _ :: _ => .error .illTyped
@@ -219,26 +382,146 @@ def stepBigMap (σ : Store ρ S) (s : S) : Basic → List (Val ρ) → Except Er
   | .getAndUpdate, _ => .error .underflow
   | _, _ => .error .unrecognised
 
-/-- one instruction of a code body / cell; `cur` = the interpreter's context reference -/
-def stepBasic (σ : Store ρ S) (cur : ρ) (b : Basic) (st : List (Val ρ)) (s : S) : Res S (List (Val ρ)) :=
-  match stackOnly b st with
-  | some r => (r, s)
-  | none =>
-    match b with
-    | .emptyBigMap =>
-      match σ.rd s cur with
-      | none => (.error .dangling, s)
-      | some c =>
-        let r := getTmpBigMapId c.big
-        (.ok (.bigmap ⟨[], [], some r.1⟩ cur :: st), σ.wr s cur { c with big := r.2 })
-    | b => (stepBigMap σ s b st, s)
+/-! ### the execution environment: AMOUNT, BALANCE, NOW, SENDER, SOURCE -/
 
-def runBasics (σ : Store ρ S) (cur : ρ) : List Basic → List (Val ρ) → S → Res S (List (Val ρ))
-  | [], st, s => (.ok st, s)
-  | b :: bs, st, s =>
-    match stepBasic σ cur b st s with
-    | (.ok st', s') => runBasics σ cur bs st' s'
-    | (.error e, s') => (.error e, s')
+/-- `AddressType.from_value(self.sender or self.get_dummy_key_hash())` (no key: the dummy is the all-zero tz1) -/
+def addrOf : Option Str → Except Err (Val ρ)
+  | none => .ok (.address .dummy)
+  | some .empty => .ok (.address .dummy)
+  | some (.addr i) => .ok (.address (.known i))
+  | some (.other _) => .error .rejected            -- `assert is_address(value)`
+
+/-- what AMOUNT / BALANCE / NOW / SENDER / SOURCE push, read from the context passed down -/
+def readEnv (c : Ctx) : Basic → Except Err (Val ρ)
+  | .amount => mutezOf (c.amount.getD 0)     -- `self.amount or 0`
+  | .balance => mutezOf (c.balance.getD 0)   -- no shell; `+ self.balance_update`, which is 0
+  | .now => .ok (.timestamp (c.now.getD 0))  -- no shell
+  | .sender => addrOf c.sender
+  | .source => addrOf c.source
+  | _ => .error .unrecognised
+
+/-- an error raised while the live stack is `st` -/
+def failAt {α : Type} (st : Stk (Val ρ)) (e : Err) (s : S) : Res S α := (.error ⟨e, st.prot⟩, s)
+
+/-- an instruction that pops its operands (`pop1` / `pop2` / `pop3`), checks them and pushes its results -/
+def stepPops (σ : Store ρ S) (b : Basic) (st : Stk (Val ρ)) (s : S) : Res S (Stk (Val ρ)) :=
+  match st.popArgs (arity b) with
+  | none => failAt st .underflow s
+  | some (xs, st1) =>
+    match (match stackOnly b xs with
+           | some r => r
+           | none => stepBigMap σ s b xs) with
+    | .ok ys => (.ok (st1.pushAll ys), s)
+    | .error e => failAt st e s
+
+/-- AMOUNT / BALANCE / NOW / SENDER / SOURCE: `context.get_…()`, `XType.from_value(…)`, `stack.push(res)` -/
+def stepEnv (σ : Store ρ S) (cur : ρ) (b : Basic) (st : Stk (Val ρ)) (s : S) : Res S (Stk (Val ρ)) :=
+  match σ.rd s cur with
+  | none => failAt st .dangling s
+  | some c =>
+    match readEnv c b with
+    | .ok v => (.ok (st.push v), s)
+    | .error e => failAt st e s
+
+/-- one leaf instruction of a code body / cell; `cur` = the interpreter's context reference -/
+def stepBasic (σ : Store ρ S) (cur : ρ) (b : Basic) (st : Stk (Val ρ)) (s : S) : Res S (Stk (Val ρ)) :=
+  match b with
+  | .dup =>
+    -- `top = stack.peek()`; `stack.push(top.duplicate())` — `duplicate()` keeps `context`
+    match st.peek with
+    | none => failAt st .underflow s
+    | some v => (.ok (st.push v), s)
+  | .dropn n =>
+    -- `stack.pop(count=n)`
+    match st.pop n with
+    | none => failAt st .underflow s
+    | some r => (.ok r.2, s)
+  | .dig n =>
+    -- `protect(n)`; `pop1()`; `restore(n)`; `push(res)`
+    match st.protect n with
+    | none => failAt st .underflow s
+    | some st1 =>
+      match st1.pop 1 with
+      | none => failAt st1 .underflow s                     -- raised with `n` more items protected
+      | some (vs, st2) =>
+        match st2.restore n with
+        | none => failAt st2 .underflow s
+        | some st3 => (.ok (st3.pushAll vs), s)
+  | .dug n =>
+    -- `pop1()`; `protect(n)`; `push(res)`; `restore(n)`
+    match st.pop 1 with
+    | none => failAt st .underflow s
+    | some (vs, st1) =>
+      match st1.protect n with
+      | none => failAt st1 .underflow s
+      | some st2 =>
+        match (st2.pushAll vs).restore n with
+        | none => failAt (st2.pushAll vs) .underflow s
+        | some st3 => (.ok st3, s)
+  | .dupn d =>
+    -- `DUP (d+1)`: `protect(d)`; `peek()`; `duplicate()`; `restore(d)`; `push(res)`
+    match st.protect d with
+    | none => failAt st .underflow s
+    | some st1 =>
+      match st1.peek with
+      | none => failAt st1 .underflow s                     -- raised with `d` more items protected
+      | some v =>
+        match st1.restore d with
+        | none => failAt st1 .underflow s
+        | some st2 => (.ok (st2.push v), s)
+  | .emptyBigMap =>
+    match σ.rd s cur with
+    | none => failAt st .dangling s
+    | some c =>
+      let r := getTmpBigMapId c.big
+      (.ok (st.push (.bigmap ⟨[], [], some r.1⟩ cur)), σ.wr s cur { c with big := r.2 })
+  | .amount | .balance | .now | .sender | .source => stepEnv σ cur b st s
+  | b => stepPops σ b st s
+
+/-! ### programs: DIP bodies -/
+
+/-- `execute_dip`: `stack.protect(count)`; `body.execute(…)`; `stack.restore(count)` — no try/finally -/
+def executeDip {α : Type} (count : Nat) (body : Stk (Val ρ) → S → Res S (Stk (Val ρ) × α))
+    (st : Stk (Val ρ)) (s : S) : Res S (Stk (Val ρ) × α) :=
+  match st.protect count with
+  | none => failAt st .underflow s
+  | some st1 =>
+    match body st1 s with
+    | (.error f, s') => (.error f, s')
+    | (.ok r, s') =>
+      match r.1.restore count with
+      | none => failAt r.1 .underflow s'
+      | some st2 => (.ok (st2, r.2), s')
+
+mutual
+/-- one instruction: a leaf, or a DIP around a body -/
+def execProg {α : Type} (step : α → Stk (Val ρ) → S → Res S (Stk (Val ρ) × List Out)) :
+    Prog α → Stk (Val ρ) → S → Res S (Stk (Val ρ) × List Out)
+  | .op a, st, s => step a st s
+  | .dip body, st, s => executeDip 1 (execProgs step body) st s
+  | .dipn n body, st, s => executeDip n (execProgs step body) st s
+/-- `MichelineSequence.execute`: left to right, until one raises -/
+def execProgs {α : Type} (step : α → Stk (Val ρ) → S → Res S (Stk (Val ρ) × List Out)) :
+    List (Prog α) → Stk (Val ρ) → S → Res S (Stk (Val ρ) × List Out)
+  | [], st, s => (.ok (st, []), s)
+  | p :: ps, st, s =>
+    match execProg step p st s with
+    | (.error f, s') => (.error f, s')
+    | (.ok r, s') =>
+      match execProgs step ps r.1 s' with
+      | (.ok r2, s'') => (.ok (r2.1, r.2 ++ r2.2), s'')
+      | (.error f, s'') => (.error f, s'')
+end
+
+/-- a leaf of a code body shows nothing -/
+def basicStep (σ : Store ρ S) (cur : ρ) (b : Basic) (st : Stk (Val ρ)) (s : S) : Res S (Stk (Val ρ) × List Out) :=
+  match stepBasic σ cur b st s with
+  | (.ok st', s') => (.ok (st', []), s')
+  | (.error f, s') => (.error f, s')
+
+/-- a `code { … }` body -/
+def runBasics (σ : Store ρ S) (cur : ρ) (code : List (Prog Basic)) (st : Stk (Val ρ)) (s : S) : Res S (Stk (Val ρ) × List Out) :=
+  execProgs (basicStep σ cur) code st s
 
 /-! ### literals, `attach_context`, `aggregate_lazy_diff` -/
 
@@ -276,9 +559,12 @@ def attachVal (cur : ρ) (copy : Bool) : Val Unit → BigMap.Ctx → Val ρ × B
   | .bool b, c => (.bool b, c)
   | .none t, c => (.none t, c)
   | .nilOp, c => (.nilOp, c)
+  | .mutez n, c => (.mutez n, c)
+  | .timestamp z, c => (.timestamp z, c)
+  | .address a, c => (.address a, c)
 
 /-- `aggregate_lazy_diff`: every big map inside the value asks *its own* context for the id -/
-def aggVal (σ : Store ρ S) : Val ρ → S → Res S (Val ρ × List Entry)
+def aggVal (σ : Store ρ S) : Val ρ → S → Except Err (Val ρ × List Entry) × S
   | .bigmap b r, s =>
     match σ.rd s r with
     | none => (.error .dangling, s)
@@ -302,11 +588,14 @@ def aggVal (σ : Store ρ S) : Val ρ → S → Res S (Val ρ × List Entry)
   | .bool b, s => (.ok (.bool b, []), s)
   | .none t, s => (.ok (.none t, []), s)
   | .nilOp, s => (.ok (.nilOp, []), s)
+  | .mutez n, s => (.ok (.mutez n, []), s)
+  | .timestamp z, s => (.ok (.timestamp z, []), s)
+  | .address a, s => (.ok (.address a, []), s)
 
 def erase : Val ρ → Val Unit := Val.map fun _ => ()
 
-/-- BEGIN / `program.begin`: parse both literals, attach parameter (as copy) then storage to `cur`, push the pair -/
-def beginWith (σ : Store ρ S) (cur : ρ) (p s : Lit) (st : S) : Res S (Val ρ) :=
+/-- BEGIN / `program.begin`: parse both literals, attach parameter (as copy) then storage to `cur`, build the pair -/
+def beginWith (σ : Store ρ S) (cur : ρ) (p s : Lit) (st : S) : Except Err (Val ρ) × S :=
   match σ.rd st cur with
   | none => (.error .dangling, st)
   | some c =>
@@ -322,7 +611,7 @@ def beginWith (σ : Store ρ S) (cur : ρ) (p s : Lit) (st : S) : Res S (Val ρ)
     | _, _ => (.error .notInitialised, st)
 
 /-- COMMIT / `program.end` on the popped value -/
-def endWith (σ : Store ρ S) (cur : ρ) (res : Val ρ) (st : S) : Res S (Val ρ × List Entry) :=
+def endWith (σ : Store ρ S) (cur : ρ) (res : Val ρ) (st : S) : Except Err (Val ρ × List Entry) × S :=
   match σ.rd st cur with
   | none => (.error .dangling, st)
   | some c =>
@@ -336,92 +625,116 @@ def endWith (σ : Store ρ S) (cur : ρ) (res : Val ρ) (st : S) : Res S (Val ρ
     | some _, _ => (.error .illTyped, st)
     | none, _ => (.error .notInitialised, st)
 
-/-- one instruction of a cell: new stack and what it shows -/
-def stepInstr (σ : Store ρ S) (cur : ρ) (i : Instr) (st : List (Val ρ)) (s : S) : Res S (List (Val ρ) × List Out) :=
+/-- `res = stack.pop1()`; `if len(stack): raise` (every item counts, protected or not); type check; lazy diff -/
+def popResult (σ : Store ρ S) (cur : ρ) (stk : Stk (Val ρ)) (s : S) : Res S (Stk (Val ρ) × Val ρ × Val ρ × List Entry) :=
+  match stk.pop 1 with
+  | some ([res], stk1) =>
+    if stk1.items.isEmpty then
+      match endWith σ cur res s with
+      | (.ok r, s') => (.ok (stk1, res, r.1, r.2), s')
+      | (.error e, s') => failAt stk1 e s'
+    else failAt stk1 .illTyped s                            -- 'Stack is not empty'
+  | _ => failAt stk .underflow s
+
+/-- PATCH: `context.<field> = None` / `literal.get_int()` / `literal.get_string()` -/
+def patchCtx (c : Ctx) : Field → Option PatchVal → Except Err Ctx
+  | .amount, none => .ok { c with amount := none }
+  | .amount, some (.int n) => .ok { c with amount := some n }
+  | .amount, some (.str _) => .error .rejected            -- `get_int`: TypeError
+  | .balance, none => .ok { c with balance := none }
+  | .balance, some (.int n) => .ok { c with balance := some n }
+  | .balance, some (.str _) => .error .rejected
+  | .chainId, none => .ok { c with chainId := none }
+  | .chainId, some (.str x) => .ok { c with chainId := some x }
+  | .chainId, some (.int _) => .error .rejected           -- `get_string`: TypeError
+  | .sender, none => .ok { c with sender := none }
+  | .sender, some (.str x) => .ok { c with sender := some x }
+  | .sender, some (.int _) => .error .rejected
+  | .source, none => .ok { c with source := none }
+  | .source, some (.str x) => .ok { c with source := some x }
+  | .source, some (.int _) => .error .rejected
+  | .now, none => .ok { c with now := none }
+  | .now, some (.int n) => .ok { c with now := some n }
+  | .now, some (.str _) => .error .rejected               -- not an int, and no `Str` is an RFC 3339 timestamp
+
+/-- one leaf instruction of a cell: new stack and what it shows -/
+def stepInstr (σ : Store ρ S) (cur : ρ) (i : Instr) (st : Stk (Val ρ)) (s : S) : Res S (Stk (Val ρ) × List Out) :=
   match i with
-  | .basic b =>
-    match stepBasic σ cur b st s with
-    | (.ok st', s') => (.ok (st', []), s')
-    | (.error e, s') => (.error e, s')
+  | .basic b => basicStep σ cur b st s
   | .declStorage t =>
     match σ.rd s cur with
-    | none => (.error .dangling, s)
+    | none => failAt st .dangling s
     | some c => (.ok (st, []), σ.wr s cur { c with storageTy := some t })
   | .declParam t =>
     match σ.rd s cur with
-    | none => (.error .dangling, s)
+    | none => failAt st .dangling s
     | some c => (.ok (st, []), σ.wr s cur { c with paramTy := some t })
   | .declCode code =>
     match σ.rd s cur with
-    | none => (.error .dangling, s)
+    | none => failAt st .dangling s
     | some c => (.ok (st, []), σ.wr s cur { c with code := some code })
   | .begin_ p sl =>
     match beginWith σ cur p sl s with
-    | (.ok v, s') => (.ok ([v], []), s')               -- `stack.items = []`, then push
-    | (.error e, s') => (.error e, s')
+    | (.ok v, s') => (.ok (({ st with items := [] } : Stk (Val ρ)).push v, []), s')   -- `stack.items = []`; `stack.push(res)`
+    | (.error e, s') => failAt st e s'
   | .commit =>
-    match st with
-    | [] => (.error .underflow, s)
-    | [res] =>
-      match endWith σ cur res s with
-      | (.ok r, s') => (.ok ([], [⟨"COMMIT", r.2, some (erase r.1)⟩]), s')
-      | (.error e, s') => (.error e, s')
-    | _ :: _ :: _ => (.error .illTyped, s)               -- 'Stack is not empty'
+    match popResult σ cur st s with
+    | (.ok r, s') => (.ok (r.1, [⟨"COMMIT", r.2.2.2, some (erase r.2.2.1)⟩]), s')
+    | (.error f, s') => (.error f, s')
   | .run p sl =>
     -- `stack.clear()`; load needs parameter, storage and code
+    let st0 := st.clear
     match σ.rd s cur with
-    | none => (.error .dangling, s)
+    | none => failAt st0 .dangling s
     | some c =>
       match c.code with
-      | none => (.error .notInitialised, s)
+      | none => failAt st0 .notInitialised s
       | some code =>
         match beginWith σ cur p sl s with
-        | (.error e, s1) => (.error e, s1)
+        | (.error e, s1) => failAt st0 e s1
         | (.ok v, s1) =>
-          match runBasics σ cur code [v] s1 with
-          | (.error e, s2) => (.error e, s2)
-          | (.ok [res], s2) =>
-            match endWith σ cur res s2 with
-            | (.ok r, s3) => (.ok ([], [⟨"RUN", r.2, some (erase res)⟩]), s3)   -- `result=res`: the popped pair
-            | (.error e, s3) => (.error e, s3)
-          | (.ok [], s2) => (.error .underflow, s2)
-          | (.ok (_ :: _ :: _), s2) => (.error .illTyped, s2)
-  | .dropAll => (.ok ([], []), s)
+          match runBasics σ cur code (st0.push v) s1 with
+          | (.error f, s2) => (.error f, s2)
+          | (.ok r, s2) =>
+            match popResult σ cur r.1 s2 with
+            | (.ok q, s3) => (.ok (q.1, [⟨"RUN", q.2.2.2, some (erase q.2.1)⟩]), s3)   -- `result=res`: the popped pair
+            | (.error f, s3) => (.error f, s3)
+  | .dropAll => (.ok ({ st with items := [] }, []), s)       -- `stack.items = []`: `protected` stays
   | .bigMapDiff =>
-    match st with
-    | [] => (.error .underflow, s)
-    | v :: _ =>
+    match st.peek with
+    | none => failAt st .underflow s
+    | some v =>
       match aggVal σ v s with
       | (.ok r, s') => (.ok (st, [⟨"BIG_MAP_DIFF", r.2, none⟩]), s')
-      | (.error e, s') => (.error e, s')
-  | .parseError => (.error .parse, s)
+      | (.error e, s') => failAt st e s'
+  | .patch f v =>
+    match σ.rd s cur with
+    | none => failAt st .dangling s
+    | some c =>
+      match patchCtx c f v with
+      | .ok c' => (.ok (st, []), σ.wr s cur c')
+      | .error e => failAt st e s
+  | .parseError => failAt st .parse s
 
 /-- the instructions of a cell, left to right, until one raises -/
-def runInstrs (σ : Store ρ S) (cur : ρ) : List Instr → List (Val ρ) → S → Res S (List (Val ρ) × List Out)
-  | [], st, s => (.ok (st, []), s)
-  | i :: is, st, s =>
-    match stepInstr σ cur i st s with
-    | (.error e, s') => (.error e, s')
-    | (.ok r, s') =>
-      match runInstrs σ cur is r.1 s' with
-      | (.ok r2, s'') => (.ok (r2.1, r.2 ++ r2.2), s'')
-      | (.error e, s'') => (.error e, s'')
+def runInstrs (σ : Store ρ S) (cur : ρ) (c : List (Prog Instr)) (st : Stk (Val ρ)) (s : S) : Res S (Stk (Val ρ) × List Out) :=
+  execProgs (stepInstr σ cur) c st s
 
 end generic
 
 /-! ### `Interpreter.execute` over the heap -/
 
-abbrev Cell := List Instr
+abbrev Cell := List (Prog Instr)
 
 /-- the interpreter object: the heap of context objects, `self.context`, `self.stack` -/
 structure State where
   heap : List Ctx
   cur : Nat
-  stack : List (Val Nat)
+  stack : Stk (Val Nat)
   deriving DecidableEq, Repr
 
 /-- `Interpreter()` -/
-def State.init : State := ⟨[Ctx.init], 0, []⟩
+def State.init : State := ⟨[Ctx.init], 0, Stk.empty⟩
 
 /-- what a cell returns: `error` set or not, and what its instructions show -/
 inductive CellResult
@@ -441,69 +754,82 @@ def rebinds (snap : Snapshot) (dc : DeepcopyContext) : Bool :=
   | .sharedMemoContextFirst, .memoLookup => true
   | _, _ => false
 
-/-- `execute` for a given backup shape -/
-def cellWith (rebind : Bool) (σ : State) (c : Cell) : State × CellResult :=
+/-- the shape of `execute` read from the source: does the stack copy follow the context copy, and how is the stack
+put back when the cell raises -/
+structure Cfg where
+  rebind : Bool
+  restore : Generated.C22.Restore
+  deriving DecidableEq, Repr
+
+/-- `execute` for a given backup / restore shape -/
+def cellWith (cfg : Cfg) (σ : State) (c : Cell) : State × CellResult :=
   match σ.heap[σ.cur]? with
   | none => (σ, .failed)
   | some ctx =>
     -- context_backup = deepcopy(self.context): a fresh object with the same fields
     let n := σ.heap.length
     let heap1 := σ.heap ++ [ctx]
-    -- stack_backup = deepcopy(self.stack): big maps go through `__deepcopy__`
-    let stackBackup := σ.stack.map (Val.map fun r => if rebind && r = σ.cur then n else r)
+    -- stack_backup = deepcopy(self.stack): big maps go through `__deepcopy__`, `protected` is copied
+    let stackBackup := σ.stack.map (Val.map fun r => if cfg.rebind && r = σ.cur then n else r)
     match runInstrs heapStore σ.cur c σ.stack heap1 with
     | (.ok r, h) => (⟨h, σ.cur, r.1⟩, .ok r.2)
-    | (.error _, h) => (⟨h, n, stackBackup⟩, .failed)      -- self.stack = stack_backup; self.context = context_backup
+    | (.error f, h) =>
+      match cfg.restore with
+      | .replaceStack => (⟨h, n, stackBackup⟩, .failed)                      -- self.stack = stack_backup; self.context = context_backup
+      | .itemsOnly => (⟨h, n, ⟨stackBackup.items, f.prot⟩⟩, .failed)         -- self.stack.items = stack_backup.items: the live object keeps its `protected`
 
 open Generated.C22 in
 /-- every structural fact the mirror depends on was recognised in the source -/
-def config : Option Bool :=
-  match snapshot, deepcopyContext, duplicateKeeps, contextCopy, stackShape, instrShape with
-  | some sn, some dc, some _, some _, some _, some _ => some (rebinds sn dc)
-  | _, _, _, _, _, _ => none
+def config : Option Cfg :=
+  match snapshot, deepcopyContext, restore, duplicateKeeps, contextCopy, stackShape, instrShape with
+  | some sn, some dc, some rs, some _, some _, some _, some _ => some ⟨rebinds sn dc, rs⟩
+  | _, _, _, _, _, _, _ => none
 
 /-- the source under test -/
-def cell (σ : State) (c : Cell) : Option (State × CellResult) := config.map fun rb => cellWith rb σ c
+def cell (σ : State) (c : Cell) : Option (State × CellResult) := config.map fun cfg => cellWith cfg σ c
 
-def sessionWith (rebind : Bool) : State → List Cell → List CellResult × State
+def sessionWith (cfg : Cfg) : State → List Cell → List CellResult × State
   | σ, [] => ([], σ)
   | σ, c :: cs =>
-    let r := cellWith rebind σ c
-    let rest := sessionWith rebind r.1 cs
+    let r := cellWith cfg σ c
+    let rest := sessionWith cfg r.1 cs
     (r.2 :: rest.1, rest.2)
 
-def session (σ : State) (cs : List Cell) : Option (List CellResult × State) := config.map fun rb => sessionWith rb σ cs
+def session (σ : State) (cs : List Cell) : Option (List CellResult × State) := config.map fun cfg => sessionWith cfg σ cs
 
 /-- the cells of a session that did not fail -/
-def dropFailingWith (rebind : Bool) : State → List Cell → List Cell
+def dropFailingWith (cfg : Cfg) : State → List Cell → List Cell
   | _, [] => []
   | σ, c :: cs =>
-    let r := cellWith rebind σ c
-    if r.2.isFailed then dropFailingWith rebind r.1 cs else c :: dropFailingWith rebind r.1 cs
+    let r := cellWith cfg σ c
+    if r.2.isFailed then dropFailingWith cfg r.1 cs else c :: dropFailingWith cfg r.1 cs
 
-def dropFailing (σ : State) (cs : List Cell) : Option (List Cell) := config.map fun rb => dropFailingWith rb σ cs
+def dropFailing (σ : State) (cs : List Cell) : Option (List Cell) := config.map fun cfg => dropFailingWith cfg σ cs
 
-/-- what can be seen of a state, following references: the stack (values without addresses), the contents of every
-context reachable from a stacked big map, and the interpreter's own context -/
+/-- what can be seen of a state, following references: the stack (values without addresses), its `protected` counter
+(where the next push lands, how many items the next pop can reach), the contents of every context reachable from a
+stacked big map, and the interpreter's own context (declared types, code, big map counters and registry, the patched
+AMOUNT / BALANCE / NOW / SENDER / SOURCE / CHAIN_ID) -/
 structure Observation where
   stack : List (Val Unit)
+  protected_ : Nat
   reachable : List (Option Ctx)
   context : Option Ctx
   deriving DecidableEq, Repr
 
 def observe (σ : State) : Observation :=
-  ⟨σ.stack.map erase, (σ.stack.flatMap Val.refs).map fun r => σ.heap[r]?, σ.heap[σ.cur]?⟩
+  ⟨σ.stack.items.map erase, σ.stack.prot, (σ.stack.items.flatMap Val.refs).map fun r => σ.heap[r]?, σ.heap[σ.cur]?⟩
 
 /-- result and observation after every cell of a session -/
-def traceWith (rebind : Bool) : State → List Cell → List (CellResult × Observation)
+def traceWith (cfg : Cfg) : State → List Cell → List (CellResult × Observation)
   | _, [] => []
   | σ, c :: cs =>
-    let r := cellWith rebind σ c
-    (r.2, observe r.1) :: traceWith rebind r.1 cs
+    let r := cellWith cfg σ c
+    (r.2, observe r.1) :: traceWith cfg r.1 cs
 
-def trace (σ : State) (cs : List Cell) : Option (List (CellResult × Observation)) := config.map fun rb => traceWith rb σ cs
+def trace (σ : State) (cs : List Cell) : Option (List (CellResult × Observation)) := config.map fun cfg => traceWith cfg σ cs
 
 /-- well-formed: the interpreter's context exists and every stacked big map points at it -/
-def WF (σ : State) : Prop := σ.cur < σ.heap.length ∧ ∀ v ∈ σ.stack, ∀ r ∈ v.refs, r = σ.cur
+def WF (σ : State) : Prop := σ.cur < σ.heap.length ∧ ∀ v ∈ σ.stack.items, ∀ r ∈ v.refs, r = σ.cur
 
 end Impl.Session
